@@ -4,6 +4,7 @@ import Hive.Model.C12aHeap
 import Hive.Model.C12aQueue
 import Hive.Model.C12aRing
 import Hive.Model.C12aStack
+import Hive.Model.C12aCb
 /-!
 Driver for C12 part A: the first token of a request selects the container model
 (`shrink | rmap | gh | pq | tpq | queue | ring | stack`), the rest is that model's request.
@@ -12,7 +13,7 @@ open Hive.C12a
 
 structure All where
   shrink : Shrink.DSt := Shrink.dinit
-  rmap : RMap.St := RMap.init
+  rmap : RMap.DSt := RMap.dinit
   gh : Heap.St := Heap.init false
   pq : Heap.St := Heap.init false
   tpq : Heap.St := Heap.init true
@@ -20,15 +21,20 @@ structure All where
   ring : Ring.St := Ring.init 1
   stack : Stack.St := Stack.init
 
+/-- The white-box state of the model is appended to every answer (`bad-op` stays bare): model and
+code are compared after every operation, not only through what the operation returns. -/
+def withState (ans st : String) : String := if ans == "bad-op" then ans else ans ++ " | " ++ st
+
 def stepAll (a : All) : List String → All × String
-  | "shrink" :: t => let r := Shrink.stepLine a.shrink t; ({ a with shrink := r.1 }, r.2)
-  | "rmap" :: t => let r := RMap.stepLine a.rmap t; ({ a with rmap := r.1 }, r.2)
-  | "gh" :: t => let r := Heap.stepGH a.gh t; ({ a with gh := r.1 }, r.2)
-  | "pq" :: t => let r := Heap.stepPQ false a.pq t; ({ a with pq := r.1 }, r.2)
-  | "tpq" :: t => let r := Heap.stepPQ true a.tpq t; ({ a with tpq := r.1 }, r.2)
-  | "queue" :: t => let r := Queue.stepLine a.queue t; ({ a with queue := r.1 }, r.2)
-  | "ring" :: t => let r := Ring.stepLine a.ring t; ({ a with ring := r.1 }, r.2)
-  | "stack" :: t => let r := Stack.stepLine a.stack t; ({ a with stack := r.1 }, r.2)
+  | "shrink" :: t => let r := Shrink.stepLine a.shrink t; ({ a with shrink := r.1 }, withState r.2 (Shrink.showState r.1))
+  | "rmap" :: t => let r := RMap.stepLine a.rmap t; ({ a with rmap := r.1 }, withState r.2 (RMap.showState r.1))
+  | "gh" :: t => let r := Heap.stepGH a.gh t; ({ a with gh := r.1 }, withState r.2 (Heap.showStateGH r.1))
+  | "pq" :: t => let r := Heap.stepPQ false a.pq t; ({ a with pq := r.1 }, withState r.2 (Heap.showStatePQ r.1))
+  | "tpq" :: t => let r := Heap.stepPQ true a.tpq t; ({ a with tpq := r.1 }, withState r.2 (Heap.showStatePQ r.1))
+  | "queue" :: t => let r := Queue.stepLine a.queue t; ({ a with queue := r.1 }, withState r.2 (Queue.showState r.1))
+  | "ring" :: t => let r := Ring.stepLine a.ring t; ({ a with ring := r.1 }, withState r.2 (Ring.showState r.1))
+  | "stack" :: t => let r := Stack.stepLine a.stack t; ({ a with stack := r.1 }, withState r.2 (Stack.showState r.1))
+  | "cb" :: t => (a, withState (Cb.stepLine t) "-")
   | _ => (a, "bad-op")
 
 def main : IO Unit := Hive.Proto.run ({} : All) stepAll
